@@ -368,6 +368,54 @@ pub fn run(tier: &str) -> i32 {
             }
         }
         rep.extra.insert("library_history_pairs".into(), json!(lh));
+        // ---- history on disk: --output onto a file that does not exist / holds a longer / a shorter / an equal-length earlier
+        //      output; the bytes written must be the same every time
+        let mut oh = 0u64;
+        let odir = reset_dir("c05o");
+        let r_long = put("c05o/long.guard", RULES5);
+        let r_short = put("c05o/short.guard", "rule r { a exists }\n");
+        let t_long = put("c05o/long.json", "{\"Resources\":{\"a\":{\"Type\":\"AWS::S3::Bucket\",\"Properties\":{\"BucketName\":\"first-bucket-name\",\"Tags\":[1,2,3]}},\"b\":{\"Type\":\"AWS::EC2::Volume\",\"Properties\":{\"Size\":100}}}}");
+        let t_short = put("c05o/short.json", "{\"Resources\":{\"a\":{\"Type\":\"AWS::S3::Bucket\",\"Properties\":{\"P\":1}}}}");
+        let env = vec![("LD_PRELOAD".to_string(), shim.clone()), ("VERIF_HASH_SEED".to_string(), "1".to_string())];
+        let cmds: Vec<(&str, Vec<String>, Vec<String>)> = vec![
+            ("parse-tree", sv(&["parse-tree", "-r", &r_short]), sv(&["parse-tree", "-r", &r_long])),
+            ("parse-tree:json", sv(&["parse-tree", "-p", "-r", &r_short]), sv(&["parse-tree", "-p", "-r", &r_long])),
+            ("parse-tree:yaml", sv(&["parse-tree", "-y", "-r", &r_short]), sv(&["parse-tree", "-y", "-r", &r_long])),
+            ("rulegen", sv(&["rulegen", "-t", &t_short]), sv(&["rulegen", "-t", &t_long])),
+        ];
+        for (name, short_cmd, long_cmd) in &cmds {
+            let outp = format!("{}/out-{}.txt", odir, name.replace(':', "-"));
+            let with_out = |c: &Vec<String>| {
+                let mut a = c.clone();
+                a.extend(sv(&["-o", &outp]));
+                a
+            };
+            for (which, cmd, other) in [("short", short_cmd, long_cmd), ("long", long_cmd, short_cmd)] {
+                let _ = std::fs::remove_file(&outp);
+                let fresh_run = cli_proc(&with_out(cmd), "", &env, None, 20_000);
+                let fresh = std::fs::read(&outp).unwrap_or_default();
+                // earlier contents: the other command's output, junk of three lengths
+                let mut earlier: Vec<(String, Vec<u8>)> = vec![];
+                let _ = std::fs::remove_file(&outp);
+                let _ = cli_proc(&with_out(other), "", &env, None, 20_000);
+                earlier.push(("the output of another run".into(), std::fs::read(&outp).unwrap_or_default()));
+                earlier.push(("a longer file".into(), vec![b'#'; fresh.len() + 100]));
+                earlier.push(("a shorter file".into(), vec![b'#'; fresh.len() / 2]));
+                earlier.push(("a file of the same length".into(), vec![b'#'; fresh.len()]));
+                earlier.push(("its own earlier output".into(), fresh.clone()));
+                for (what, bytes) in earlier {
+                    std::fs::write(&outp, &bytes).unwrap();
+                    let o = cli_proc(&with_out(cmd), "", &env, None, 20_000);
+                    let now = std::fs::read(&outp).unwrap_or_default();
+                    oh += 1;
+                    res.acc.traces += 1;
+                    if now != fresh || o.status != fresh_run.status {
+                        res.acc.violate(&format!("output-file-history:{}", name), format!("{} ({} input) --output onto {}: {} bytes (exit {}), onto no file {} bytes (exit {})", name, which, what, now.len(), o.status, fresh.len(), fresh_run.status), json!({"kind":"proc","argv":with_out(cmd),"stdin":"","expected":"the bytes written to a file that did not exist","observed":format!("{} bytes instead of {}", now.len(), fresh.len()),"earlier_content":what}));
+                    }
+                }
+            }
+        }
+        rep.extra.insert("output_file_histories".into(), json!(oh));
     }
     rep.states = res.acc.traces;
     rep.transitions = res.acc.traces;
